@@ -145,31 +145,36 @@ def config(rng, i, tier):
         if pw is not None:
             rng.shuffle(pw)
         cfg["refit_after"] = {"edges": pe, "weights": pw, "seed": rng.randrange(1, 10 ** 6)}
-        # ... and in some of them that earlier fit FAILED after training and the caller went on with the object: the results
-        # could not be written (out_inference=True with a folder that cannot exist), or the fit was interrupted in a later
-        # realisation.  What the aborted fit left behind (its best log-likelihood, its parameters) must not reach the next fit;
-        # it would win when the earlier data were easier, so the earlier hypergraph is often a part of the observed one
-        # (fewer hyperedges: larger log-likelihood) and the earlier fit uses the seed of the observed one
-        if rng.random() < 0.45:
-            prev = cfg["refit_after"]
-            prev["failed"] = rng.choice(["output", "output", "interrupt"])
-            r = rng.random()
-            if r < 0.6:
-                keep = [j for j in range(len(edges)) if rng.random() < 0.5]
-                sub = [edges[j] for j in keep]
-                sw = None if weights is None else [weights[j] for j in keep]
-                for j in rng.sample(range(len(edges)), len(edges)):
-                    if len({n for e in sub for n in e}) >= K + 1:
-                        break
-                    if edges[j] not in sub:
-                        sub.append(edges[j])
-                        if sw is not None:
-                            sw.append(weights[j])
-                prev["edges"], prev["weights"] = sub, sw
-            if r < 0.8:
-                prev["seed"] = cfg["seed"]
-            if prev["failed"] == "interrupt" and cfg["n_realizations"] == 1:
-                cfg["n_realizations"] = 2
+    return cfg
+
+
+def failed_history(cfg, rng):
+    """in part of the configurations whose model object has been fitted before, that earlier fit FAILED after training and the caller
+    went on with the object: the results could not be written (out_inference=True with a folder that cannot exist), or the fit was
+    interrupted in a later realisation.  What the aborted fit left behind (its best log-likelihood, its parameters) must not reach
+    the next fit; it would win when the earlier data were easier, so the earlier hypergraph is often a part of the observed one
+    (fewer hyperedges: larger log-likelihood) and the earlier fit uses the seed of the observed one.  Own generator: the
+    configurations themselves stay what they were for a given seed."""
+    prev = cfg.get("refit_after")
+    if not prev or rng.random() >= 0.45:
+        return cfg
+    edges, weights, K = cfg["edges"], cfg["weights"], cfg["K"]
+    prev["failed"] = rng.choice(["output", "output", "interrupt"]) if cfg["n_realizations"] > 1 else "output"
+    r = rng.random()
+    if r < 0.6:
+        keep = [j for j in range(len(edges)) if rng.random() < 0.5]
+        sub = [edges[j] for j in keep]
+        sw = None if weights is None else [weights[j] for j in keep]
+        for j in rng.sample(range(len(edges)), len(edges)):
+            if len({n for e in sub for n in e}) >= K + 1:
+                break
+            if edges[j] not in sub:
+                sub.append(edges[j])
+                if sw is not None:
+                    sw.append(weights[j])
+        prev["edges"], prev["weights"] = sub, sw
+    if r < 0.8:
+        prev["seed"] = cfg["seed"]
     return cfg
 
 
@@ -398,7 +403,12 @@ def end_event(r, ends, code):
 
 def validate(res, tier, rng, only=None):
     n_cfg = 480 if tier == "quick" else 6000
-    cfgs = ([config(rng, i, tier) for i in range(n_cfg)] + [dict(c) for c in PINNED]) if only is None else only
+    if only is None:
+        cfgs = [config(rng, i, tier) for i in range(n_cfg)]
+        hrng = random.Random(rng.randrange(1 << 30))          # drawn after the configurations: their stream is unchanged
+        cfgs = [failed_history(c, hrng) for c in cfgs] + [dict(c) for c in PINNED]
+    else:
+        cfgs = only
     cases, cidx, traces, tidx, infos = [], [], [], [], []
     for i, cfg in enumerate(cfgs):
         hy, mt, tr, info = observe(cfg, i)
